@@ -22,6 +22,11 @@ Ghost state kept along the real loop (existence-free specification: every quanti
   POS[i]    position, in the chunk list, of the ATOM/HETATM line of row i
   LINES[i]  the string _format_pdb_atom_line returned for row i
   TER[i]    the string _format_pdb_ter_line returned for the chain that ends with row i
+Proof devices (all conservative: explicit definitions, dropped hypotheses, proved-equal substitutions)
+  define opaque LOK / TOK / SC / SM / MR   names for "line is the layout of row i's atom", "TER line is the layout for row i",
+            "rows i, i+1 in the same chain / model", "MODEL record of row i"; `reveal P(args)` adds one instance of a definition
+  replace x by e   the program variable x is shown equal to the specification term e and denotes e from there on
+  mark / stash / unstash, summarize, scoped keep n   keep string constraints out of the bookkeeping obligations
 """
 import z3 as _z3
 
